@@ -54,9 +54,13 @@ fn proj(kind: ProjKind, subject: RefExpr, rhs: RefExpr) -> RefExpr {
 /// Numbers for typed documents: small pool with many duplicates, both integer
 /// and float spelling of the same value, negatives and fractions.
 pub fn schema_number(src: &mut Src) -> J {
-    if src.chance(5) {
+    if src.chance(9) {
         // huge well-separated integers (up to u64::MAX) and magnitudes next to zero
-        return match src.below(6) {
+        return match src.below(9) {
+            // (two of these in one array make a sum that no double holds)
+            6 => J::f(1e308),
+            7 => J::f(-1e308),
+            8 => J::f(1.7976931348623157e308),
             0 => J::Num(N::Int(9223372036854775808)),
             1 => J::Num(N::Int(18446744073709551615)),
             2 => J::Num(N::Int(12000000000000000000)),
